@@ -264,7 +264,7 @@ func verif_handlePing(ctl *Control, m msg.Message) {
 // run id is refused; nothing the visitor sends can choose the user.
 //
 //verif:contract (*~/server.Service).RegisterVisitorConn
-//verif:props C08
+//verif:props C08 C16
 func verif_RegisterVisitorConn(svr *Service, visitorConn net.Conn, newMsg *msg.NewVisitorConn) {
 	runID := newMsg.RunID
 	ctl0, ok0 := svr.ctlManager.ctlsByRunID[runID]
@@ -279,6 +279,7 @@ func verif_RegisterVisitorConn(svr *Service, visitorConn net.Conn, newMsg *msg.N
 			verif.Ensures(verif.CalledWith(evNewConn, 7, ""), "legacy_visitor_has_empty_user")
 		}
 		verif.Ensures(verif.CalledWith(evNewConn, 1, newMsg.ProxyName) && verif.CalledWith(evNewConn, 3, newMsg.Timestamp) && verif.CalledWith(evNewConn, 4, newMsg.SignKey), "request_passed_unchanged")
+		verif.Ensures(verif.Same(verif.NthArg[any](evNewConn, 0, 2), any(visitorConn)) && verif.CalledWith(evNewConn, 5, newMsg.UseEncryption) && verif.CalledWith(evNewConn, 6, newMsg.UseCompression), "declared_layers_passed_in_their_own_slots")
 		verif.Ensures(err == verif.RetErr(evNewConn, 0), "result_is_managers")
 	} else {
 		verif.Ensures(err != nil, "not_forwarded_means_error")
@@ -448,7 +449,7 @@ func verif_GetWorkConn(ctl *Control) {
 // the connection is closed as well.
 //
 //verif:contract (*~/server.Service).handleConnection
-//verif:props C17 C16
+//verif:props C17 C16 C04 C11 C15
 func verif_handleConnection(svr *Service, ctx context.Context, conn net.Conn, internal bool) {
 	verif.ResetEvents()
 	svr.handleConnection(ctx, conn, internal)
@@ -470,6 +471,12 @@ func verif_handleConnection(svr *Service, ctx context.Context, conn net.Conn, in
 		}
 		if isLogin {
 			verif.Ensures(!verif.Called("Service).RegisterWorkConn") && !verif.Called("Service).RegisterVisitorConn"), "login_opens_only_a_session")
+			// C15 "plugins see each other's edits": the session is opened with the
+			// login message the plugin chain returned, not the one the client sent
+			if verif.Called("Service).RegisterControl") {
+				ret := verif.Ret[*plugin.LoginContent]("Manager).Login", 0)
+				verif.Ensures(verif.Called("Manager).Login") && verif.RetErr("Manager).Login", 1) == nil && ret != nil && verif.NthArg[*msg.Login]("Service).RegisterControl", 0, 2) == &ret.Login, "session_opened_with_the_login_the_plugins_returned")
+			}
 			if !verif.Called("Service).RegisterControl") || verif.RetErr("Service).RegisterControl", 0) != nil {
 				verif.Ensures(closed, "refused_login_disconnects")
 			}
